@@ -304,6 +304,10 @@ class Functional(BasicForm):
         if isinstance(domain, Domain):
             domain = domain.interior
 
+        elif isinstance(domain, Union):
+            # a union of patches: the integrals are over the interiors (as for a multi-patch Domain)
+            domain = Union(*[d.interior if isinstance(d, Domain) else d for d in domain])
+
         if evaluate:
             expr = Integral(expr, domain)
 
